@@ -64,6 +64,7 @@ type Dir struct {
 	FlipMask  byte
 	ResetAt   int64
 	EOFAt     int64
+	CutNow    bool // set by a Filter: the stream ends (clean EOF) behind the chunks of this write
 	StallAt   int64
 	StallFor  time.Duration
 	ShortAt   int64 // a write crossing this offset is cut there and fails with a timeout-less error
@@ -380,6 +381,15 @@ func (e *Endpoint) doWrite(w *simrt.World, r *simrt.Req) (int, error) {
 	chunks := [][]byte{b}
 	if d.Filter != nil {
 		chunks = d.Filter(w, d, b)
+	}
+	if d.CutNow {
+		// a Filter asked for a clean EOF behind the chunks it returned (scheduler side)
+		d.CutNow = false
+		d.EOFAt = 0
+		if !d.eofDone {
+			d.eofDone = true
+			d.Fired["eof"]++
+		}
 	}
 	ready := time.Now().Add(d.Latency)
 	if d.Jitter > 0 {
